@@ -587,6 +587,18 @@ def wf_header_and_length(st, arr, lo, hi):
     return z3.And(hi - lo >= 6, b0 == 0xD3, b1 < 4, b1 * 256 + b2 == hi - lo - 6)
 
 
+def loop_flag_name():
+    """The flag that keeps read()'s loop going is whatever name its `while` tests: robust against renaming."""
+    import ast
+    fi = extract.func(R + ".read")
+    for n in ast.walk(fi.node):
+        if isinstance(n, ast.While):
+            names = [x.id for x in ast.walk(n.test) if isinstance(x, ast.Name)]
+            if names:
+                return names[0]
+    return "parsing"
+
+
 @register
 class Read(Contract):
     qualname = R + ".read"
@@ -658,7 +670,7 @@ class Read(Contract):
             head = z3.Int("pos_at_loop_head")
             # variant |src| - pos: an iteration that goes round again has consumed at least one byte
             progress = z3.BoolVal(True) if (z3.eq(pos, head) or z3.eq(pos, p0)) else pos > head
-            return [("still_parsing", bool_term(ops.truth(st, st.env["parsing"]))),
+            return [("still_parsing", bool_term(ops.truth(st, st.env[loop_flag_name()]))),
                     ("variant_each_iteration_consumes_a_byte", progress),
                     ("pos_monotone", z3.And(pos >= p0, pos <= end)),
                     ("handler_never_called_in_ignore_mode", z3.And(h >= h0, z3.Implies(q == 0, h == h0)))]
@@ -837,7 +849,7 @@ def verify_read_complete(self, eng, inst):
     def inv(eng_, s, k):
         pos = spos(s, stream)
         h = int_term(s.ghost["hcalls"])
-        return [("still_parsing", bool_term(ops.truth(s, s.env["parsing"]))),
+        return [("still_parsing", bool_term(ops.truth(s, s.env[loop_flag_name()]))),
                 ("pos_at_item_boundary", z3.And(ISB(pos), pos >= p0, pos <= end)),
                 ("no_returnable_item_skipped", NORET(p0, pos)),
                 ("handler_calls_count_bad_frames", h == h0 + H * NBAD(p0, pos)),
